@@ -42,8 +42,8 @@ let pair (a, b) = hx a ^ "," ^ hx b
 type want = { ok : fr -> bool; txt : string }
 let exactly w = { ok = fr_ok w; txt = show_fr w }
 
-let verdict ?(cls = "") ?(nt = true) ?asis ?tag names forms (spec : string -> want) =
-  let extra = (if cls = "" then "" else "cls=" ^ cls ^ " ") in
+let verdict ?(cls = "") ?(path = "") ?(nt = true) ?asis ?tag names forms (spec : string -> want) =
+  let extra = (if cls = "" then "" else "cls=" ^ cls ^ " ") ^ (if path = "" then "" else "path=" ^ path ^ " ") in
   let missing = List.filter (fun n -> not (List.mem_assoc n forms)) names in
   let unexpected = List.filter (fun (n, _) -> not (List.mem n names)) forms in
   if missing <> [] then fail ("missing-form-" ^ List.hd missing)
@@ -244,10 +244,14 @@ let judge_fbin ?(known_ok = true) cls b m op (p1, x1) (p2, x2) names forms =
       let tag = "float_operand_exceeds_precision" in
       let shown r = V (fshow b p r) in
       let contract x = same_as_first "rounding-contract+all-forms-identical" (contract_ok b p m x) in
+      (* alignment branch of an addition / subtraction (Float/AddModel.add_path), for the coverage histogram *)
+      let path = match op with
+        | "add" | "sub" -> op ^ "-" ^ Zar.to_string (add_path b p s1 e1 s2 e2 (if op = "add" then Positive else Negative))
+        | _ -> "" in
       let vk (asis : string -> want) spec =
-        if not known_ok then verdict ~cls names forms spec
-        else if over then verdict ~cls ~asis ~tag names forms spec
-        else verdict ~cls ~asis names forms spec in
+        if not known_ok then verdict ~cls ~path names forms spec
+        else if over then verdict ~cls ~path ~asis ~tag names forms spec
+        else verdict ~cls ~path ~asis names forms spec in
       (match op with
        | "add" | "sub" ->
            let sg = if op = "add" then Positive else Negative in
@@ -267,17 +271,18 @@ let judge_fbin ?(known_ok = true) cls b m op (p1, x1) (p2, x2) names forms =
            vk asis (all_same (contract (XRat (n, d))))
        | "div" ->
            if Zar.sign p = 0 then all (exactly (P "UnlimitedPrecision"))
-           else if Zar.sign s2 = 0 then
-             (* Context::div looks at the digit estimates of a zero divisor first; the integer division
-                raises the documented panic in every form *)
-             all (exactly (P "DivideBy0"))
            else
-             let (n, d) = qdiv q1 q2 in
              let shr = function Ok r -> shown r | e -> of_res (fun _ -> "") e in
              let asis nme = exactly (match nme with
                | "ctx" -> shr (fdiv_ctx b p m s1 e1 s2 e2)
                | _ -> shr (fdiv_op b p m s1 e1 s2 e2)) in
-             vk asis (all_same (contract (XRat (n, d))))
+             if Zar.sign s2 = 0 then
+               (* the integer division raises the documented panic - unless the operator's debug
+                  assertion on an over-long dividend fires first (class float_operand_exceeds_precision) *)
+               vk asis (all_same (exactly (P "DivideBy0")))
+             else
+               let (n, d) = qdiv q1 q2 in
+               vk asis (all_same (contract (XRat (n, d))))
        | "rem" ->
            if Zar.sign s2 = 0 then all (exactly (P "DivideBy0"))
            else
